@@ -25,6 +25,12 @@ AllHeads ==
   \cup { f \o LF \o c \o LF \o b \o LF : f \in Blank, c \in GLines, b \in Blank }
   \cup { f \o LF \o c \o LF \o d \o LF \o b \o LF : f \in Blank, c \in GSmall, d \in GSmall, b \in Blank }
 ASSUME PrintT(<<"HEADS", Cardinality(AllHeads)>>)
+ASSUME SContinuationIndependent
+ASSUME RContinuationIndependent
 ASSUME ndJsonSerialize("vectors.ndjson",
-         <<[conts |-> SetToSeq(Conts)]>> \o SetToSeq({ [h |-> t, verdict |-> Verdict(t)] : t \in AllHeads }))
+         <<[conts |-> SetToSeq(Conts),
+            sheads |-> SetToSeq({ [head |-> x, verdict |-> SVerdict(x)] : x \in SHeads }),
+            bodyconts |-> SetToSeq(BodyConts),
+            rseqs |-> SetToSeq({ [pre |-> x.pre, fin |-> x.fin, status |-> RResult(x, "nothing").status] : x \in RSeqs }),
+            rconts |-> SetToSeq(RConts)]>> \o SetToSeq({ [h |-> t, verdict |-> Verdict(t)] : t \in AllHeads }))
 =============================================================================
